@@ -63,7 +63,7 @@ func TestColdStart(t *testing.T) {
 	r := vkit.Start("C10")
 	w := r.NewW()
 	w.Guard(map[string]string{"first_call": scenario}, func() { coldFirst(scenario) })
-	for _, text := range []string{"", "I", "iv", "IIII", "VIIII", "MCMXCIV", "mdclxvi", "MmMcDxLiV", "IIX", "VX", "IC", "MMMMMMMMMMDCCCCLXXXXVIIII", "X I", "Xi\x00", "null", "ſ", "CMCM", "DD", "#7", "#1994", "7", "14", "#"} {
+	for _, text := range []string{"MMXXIV", "mCdXlIv", "X\xffI", "xlii", "XIV", "xiv", "MCM", "", "I", "iv", "IIII", "VIIII", "MCMXCIV", "mdclxvi", "MmMcDxLiV", "IIX", "VX", "IC", "MMMMMMMMMMDCCCCLXXXXVIIII", "X I", "Xi\x00", "null", "ſ", "CMCM", "DD", "#7", "#1994", "7", "14", "#"} {
 		for _, rule := range []int{0, int(roman.RuleDisableEmptyAsZero)} {
 			judge(Case{Text: vkit.B(text), Rule: rule}, w)
 		}
